@@ -16,6 +16,7 @@ out = []
 for seed in sorted(rows):
     r = rows[seed]
     P, i = seed.split("/")
+    prop_id = r.get("property", P)
     ok = r.get("suite_passes_with_change") and r.get("demo_fails_with_change") and r.get("demo_passes_without")
     if not ok:
         continue
@@ -26,11 +27,11 @@ for seed in sorted(rows):
         if os.path.exists(os.path.join(src, fn)):
             shutil.copy(os.path.join(src, fn), os.path.join(dst, fn))
     notes = open(os.path.join(src, "notes.md")).read() if os.path.exists(os.path.join(src, "notes.md")) else ""
-    c = r.get("checks", {}).get(P, {})
+    c = r.get("checks", {}).get(prop_id, {})
     verdict = {1: "caught", 0: "missed", 2: "undecided"}.get(c.get("rc"), str(c.get("rc")))
     files = re.findall(r"^\+\+\+ b/(\S+)", open(os.path.join(src, "patch.diff")).read(), re.M)
     meta = dict(
-        property=P, seed=seed, files=files,
+        property=prop_id, seed=seed, files=files,
         needs_to_manifest=notes.strip()[:1500],
         origin="independent sub-agent given only the property text and its own scratch worktree of /repo",
         confirmed_by=dict(
@@ -38,7 +39,7 @@ for seed in sorted(rows):
                  "cargo test --offline --test seed_demo with the change (must fail)", "same without the change (must pass)"],
             suite_passes_with_change=bool(r.get("suite_passes_with_change")), demo_fails_with_change=bool(r.get("demo_fails_with_change")),
             demo_passes_without=bool(r.get("demo_passes_without"))),
-        check=dict(cmd="VERIF_REPO=<patched copy> ./check %s quick" % P, exit_code=c.get("rc"), verdict=verdict,
+        check=dict(cmd="VERIF_REPO=<patched copy> ./check %s quick" % prop_id, exit_code=c.get("rc"), verdict=verdict,
                    failing_obligations=c.get("obligations", []), undecided_reason=[u[:300] for u in c.get("undecided", [])]))
     json.dump(meta, open(os.path.join(dst, "meta.json"), "w"), indent=1)
     what = notes.strip().split("\n")
